@@ -265,11 +265,13 @@ class Shape:
 
 class ArrState:
   """immutable record; in-place writes replace the record in path.store"""
-  __slots__ = ('term', 'shape', 'kind', 'owner', 'base', 'version', 'tag')
+  __slots__ = ('term', 'shape', 'kind', 'owner', 'base', 'version', 'tag', 'vf')
 
-  def __init__(self, term, shape, kind='f', owner=('fresh',), base=None, version=0, tag=None):
-    self.term, self.shape, self.kind, self.owner, self.base, self.version, self.tag = \
-        term, shape, kind, owner, base, version, tag
+  def __init__(self, term, shape, kind='f', owner=('fresh',), base=None, version=0, tag=None, vf=None):
+    # vf ("value frame", ghost): for an array of integer INDICES, the length of the axis its values index
+    # (a z3 Int term); arrays of indices into different axes must not be mixed up (C07: "indices refer to the caller's array")
+    self.term, self.shape, self.kind, self.owner, self.base, self.version, self.tag, self.vf = \
+        term, shape, kind, owner, base, version, tag, vf
 
   def replace(self, **kw):
     d = {k: getattr(self, k) for k in self.__slots__}
